@@ -562,6 +562,14 @@ def match_known(known, pid, where, f):
             continue
         if kf.get("obligation") and kf["obligation"] != f.get("obligation"):
             continue
+        if kf.get("class_fn"):
+            try:
+                mod, fn = kf["class_fn"].split(":")
+                inputs = ast.literal_eval(f["inputs"]) if isinstance(f.get("inputs"), str) else f.get("inputs")
+                if not getattr(importlib.import_module(mod), fn)(inputs):
+                    continue
+            except Exception:
+                continue
         cls = kf.get("class")
         if cls:
             try:
@@ -676,8 +684,11 @@ def main(argv):
                     print("      NATIVE", r["native"]["violation"])
             elif r.get("kind"):
                 print("  %-70s %-8s cases=%s %s" % (r["name"], r["kind"], r.get("cases"), r.get("error", "")))
+    seen_l = set()
     for l in lines:
-        print(l)
+        if l not in seen_l:
+            print(l)
+        seen_l.add(l)
     c = ev["coverage"]
     print("property %s tier=%s: %d/%d obligations discharged, %d functions, %d bounded, %d finite-domain, %.1fs -> exit %d"
           % (pid, tier, c["discharged"], c["obligations"], len(c["functions"]), len(c["bounded"]), len(c["finite_domain"]),
